@@ -133,12 +133,13 @@ def sync_async(t, d):
     return a, b
 
 
+W = Union[None, bool, int]
+
+
 def _mk_render(kind):
-    def f(x: V, y: V, z: bool, n: int) -> bool:
+    def f(x: W, y: W, z: bool, n: int) -> bool:
         """
         pre: 0 <= n <= 3
-        pre: not isinstance(x, str) or len(x) <= 1
-        pre: not isinstance(y, str) or len(y) <= 1
         pre: not isinstance(x, int) or -1 <= x <= 3
         pre: not isinstance(y, int) or -1 <= y <= 3
         post: _
@@ -151,14 +152,35 @@ def _mk_render(kind):
     return f
 
 
+def _mk_render_str(kind):
+    def f(x: str, y: Union[None, int, str], z: bool, n: int) -> bool:
+        """
+        pre: 0 <= n <= 2
+        pre: len(x) <= 1
+        pre: not isinstance(y, str) or len(y) <= 1
+        pre: not isinstance(y, int) or 0 <= y <= 2
+        post: _
+        """
+        if excluded("c01_renderstr_" + kind, locals()):
+            return True
+        a, b = sync_async(T[kind], data(x, y, z, n))
+        return finish(a == b)
+    f.__name__ = f.__qualname__ = "c01_renderstr_" + kind
+    return f
+
+
 CONDITIONS = []
 _QUICK = {"out_bracket_root", "out_nested_path", "out_filters", "out_ternary", "if_chain", "if_ops", "unless_chain", "case_when", "for_args",
           "for_continue", "for_break", "tablerow_args", "capture", "cycle", "ifchanged", "liquid_tag", "include_with_for", "include_dir_name",
           "include_break", "render_with_for", "render_dir_name", "render_missing", "extends_chain", "macro_call", "with_tag", "snippet",
-          "translate", "counters", "block_standalone", "render_error_inside"}
+          "translate", "counters", "block_standalone", "render_error_inside", "if_lt", "if_contains", "out_range", "gettext_filters"}
+_QUICK_STR = {"out_bracket_root", "out_filters", "out_string_ops", "if_contains", "if_empty_blank", "case_when", "for_hash_string", "include_with_for",
+              "render_with_for", "translate", "capture", "out_ternary"}
 for _k in SKEL:
     globals()["c01_render_" + _k] = _mk_render(_k)
-    CONDITIONS.append({"fn": "c01_render_" + _k, "quick": 70 if _k in _QUICK else None, "thorough": 240})
+    CONDITIONS.append({"fn": "c01_render_" + _k, "quick": 60 if _k in _QUICK else None, "thorough": 240})
+    globals()["c01_renderstr_" + _k] = _mk_render_str(_k)
+    CONDITIONS.append({"fn": "c01_renderstr_" + _k, "quick": 60 if _k in _QUICK_STR else None, "thorough": 240})
 
 
 # ---- G3 context kernels -----------------------------------------------------------------------------
@@ -192,18 +214,48 @@ SENV = SEnv()
 SROOT = SENV.from_string("")
 
 
-def c01_get(root: Union[str, int, None], key: Union[str, int], kind: int, n: int, flags: bool, nseg: int) -> bool:
-    """
-    pre: 0 <= kind <= 7 and 0 <= n <= 3 and 0 <= nseg <= 2
-    pre: not isinstance(root, str) or len(root) <= 1
-    pre: not isinstance(key, str) or len(key) <= 5
-    post: _
-    """
-    if excluded("c01_get", locals()):
-        return True
+def keysel(i, n):
+    if i == 0:
+        return "size"
+    if i == 1:
+        return "first"
+    if i == 2:
+        return "last"
+    if i == 3:
+        return "k"
+    if i == 4:
+        return "nope"
+    if i == 5:
+        return 0
+    if i == 6:
+        return -1
+    if i == 7:
+        return n
+    return ""
+
+
+def rootsel(i):
+    if i == 0:
+        return "a"
+    if i == 1:
+        return ""
+    if i == 2:
+        return "zz"
+    if i == 3:
+        return 0
+    if i == 4:
+        return 7
+    if i == 5:
+        return None
+    if i == 6:
+        return "now"
+    return True
+
+
+def _get_case(kind, ri, ki, kj, n, flags, nseg):
     t = SROOT if flags else ROOT_T
     g = {"a": container(kind, n), "": 5}
-    path = [root] + [key] * nseg
+    path = [rootsel(ri)] + [keysel(ki, n), keysel(kj, n)][:nseg]
     r = []
     for use_async in (False, True):
         ctx = RenderContext(t, globals=g)
@@ -212,38 +264,61 @@ def c01_get(root: Union[str, int, None], key: Union[str, int], kind: int, n: int
                 v = drive(ctx.get_async(list(path), token=None))
             else:
                 v = ctx.get(list(path), token=None)
-            r.append(("ok", type(v).__name__, str(v)))
+            r.append(("ok", type(v).__name__, str(v) if not type(v).__name__.startswith("date") else "D"))
         except Exception as e:
             r.append(("err", type(e).__name__))
-    return finish(r[0] == r[1])
+    return r[0] == r[1]
 
 
-def c01_get_item(key: Union[str, int], kind: int, n: int, flags: bool) -> bool:
-    """
-    pre: 0 <= kind <= 7 and 0 <= n <= 3
-    pre: not isinstance(key, str) or len(key) <= 5
-    post: _
-    """
-    if excluded("c01_get_item", locals()):
-        return True
-    t = SROOT if flags else ROOT_T
-    obj = container(kind, n)
-    r = []
-    for use_async in (False, True):
-        ctx = RenderContext(t)
-        try:
-            if use_async:
-                v = drive(ctx.get_item_async(obj, key))
-            else:
-                v = ctx.get_item(obj, key)
-            r.append(("ok", type(v).__name__, str(v)))
-        except Exception as e:
-            r.append(("err", type(e).__name__))
-    return finish(r[0] == r[1])
+def _mk_get(kind):
+    def f(ri: int, ki: int, kj: int, n: int, flags: bool, nseg: int) -> bool:
+        """
+        pre: 0 <= ri <= 7 and 0 <= n <= 2 and 0 <= nseg <= 2 and 0 <= ki <= 8 and 0 <= kj <= 3
+        post: _
+        """
+        # path root and segments come from pools (the undefined hint calls repr() on them, which enumerates
+        # code points for symbolic text); get_item below keeps a symbolic key
+        if excluded("c01_get_k%d" % kind, locals()):
+            return True
+        args = (cint(ri, 0, 7), cint(ki, 0, 8), cint(kj, 0, 3), cint(n, 0, 2), cbool(flags), cint(nseg, 0, 2))
+        return finish(untraced(lambda: _get_case(kind, *args)))
+    f.__name__ = f.__qualname__ = "c01_get_k%d" % kind
+    return f
 
 
-CONDITIONS.append({"fn": "c01_get", "quick": 90, "thorough": 300})
-CONDITIONS.append({"fn": "c01_get_item", "quick": 90, "thorough": 300})
+def _mk_get_item(kind):
+    def f(key: Union[str, int], n: int, flags: bool) -> bool:
+        """
+        pre: 0 <= n <= 3
+        pre: not isinstance(key, str) or len(key) <= 5
+        post: _
+        """
+        if excluded("c01_get_item_k%d" % kind, locals()):
+            return True
+        t = SROOT if flags else ROOT_T
+        obj = container(kind, n)
+        r = []
+        for use_async in (False, True):
+            ctx = RenderContext(t)
+            try:
+                if use_async:
+                    v = drive(ctx.get_item_async(obj, key))
+                else:
+                    v = ctx.get_item(obj, key)
+                r.append(("ok", type(v).__name__, str(v)))
+            except Exception as e:
+                r.append(("err", type(e).__name__))
+        return finish(r[0] == r[1])
+    f.__name__ = f.__qualname__ = "c01_get_item_k%d" % kind
+    return f
+
+
+for _kind in range(8):
+    globals()["c01_get_k%d" % _kind] = _mk_get(_kind)
+    CONDITIONS.append({"fn": "c01_get_k%d" % _kind, "quick": 90, "thorough": 300, "sel_only": True})
+    globals()["c01_get_item_k%d" % _kind] = _mk_get_item(_kind)
+    CONDITIONS.append({"fn": "c01_get_item_k%d" % _kind, "quick": 60, "thorough": 200})
+
 
 # ---- G4 loaders and analysis ------------------------------------------------------------------------------
 WORK = os.path.join(os.path.dirname(os.path.dirname(os.path.abspath(__file__))), ".work")
